@@ -87,7 +87,7 @@ static void run_trace_header(int argc, char **argv) {
         } else if (!strncmp(argv[i], "plan=", 5)) plan = argv[i] + 5;
     }
     vf_set_plan(plan);
-    enum cc_stat s = useconf ? cc_tsttable_new_conf(&conf, &tb) : cc_tsttable_new(&tb);
+    enum cc_stat s = VF_OUT(tb, useconf ? cc_tsttable_new_conf(&conf, &tb) : cc_tsttable_new(&tb));
     printf("new %s", vf_stat(s));
     if (s == CC_OK) obs(); else { tb = NULL; printf(" |"); vf_ledger(); }
 }
